@@ -279,33 +279,29 @@ Fixpoint strip_prefix (p s : str) : option str :=
   | _, [] => None
   end.
 
+Definition hd_space (r : str) : bool := match r with w :: _ => is_space w | [] => false end.
+Definition starts_rparen (r : str) : bool := match r with c :: _ => N.eqb c 41 | [] => false end.
+Definition all_space (r : str) : bool := match drop_while is_space r with [] => true | _ => false end.
+Definition nonnil (r : str) : bool := match r with [] => false | _ => true end.
+
+Definition parse_morph_as (letter : bool) (b0 : str) : option (bool * N * str) :=
+  match strip_prefix (if letter then LETTER_SET else WILD_CARD) b0 with
+  | Some r0 =>
+      match drop_while is_space r0 with
+      | p :: m :: v :: r1 =>
+          if N.eqb p 40 && N.eqb m (if letter then 33%N else 63%N) && negb (N.eqb v 10) && hd_space r1 then
+            let '(cs, r2) := scan_chars (drop_while is_space r1) in
+            if nonnil cs && starts_rparen r2 && all_space (tl r2) then Some (letter, v, cs) else None
+          else None
+      | _ => None
+      end
+  | None => None
+  end.
+
 (* _parse_letterset on the text between %( and ) *)
 Definition parse_morph (body : str) : option (bool * N * str) :=
   let b0 := drop_while is_space body in
-  let try (letter : bool) :=
-    match strip_prefix (if letter then LETTER_SET else WILD_CARD) b0 with
-    | Some r0 =>
-        match drop_while is_space r0 with
-        | 40%N :: m :: v :: r1 =>
-            if N.eqb m (if letter then 33%N else 63%N) && negb (N.eqb v 10) then
-              match r1 with
-              | w :: _ =>
-                  if is_space w then
-                    let '(cs, r2) := scan_chars (drop_while is_space r1) in
-                    match cs, r2 with
-                    | _ :: _, 41%N :: r3 =>
-                        match drop_while is_space r3 with [] => Some (letter, v, cs) | _ => None end
-                    | _, _ => None
-                    end
-                  else None
-              | [] => None
-              end
-            else None
-        | _ => None
-        end
-    | None => None
-    end in
-  match try true with Some r => Some r | None => try false end.
+  match parse_morph_as true b0 with Some r => Some r | None => parse_morph_as false b0 end.
 
 Definition fmt_event (e : tevent) : list ttok :=
   match e with
@@ -339,38 +335,51 @@ Fixpoint take_pats (ts : list ttok) : option (list (str * str)) * list ttok :=
   | _ => (Some [], ts)
   end.
 
+Definition k_affix (t : ttok) : bool := match t with KAffix _ => true | _ => false end.
+Definition is_doc_dot (ts : list ttok) : bool := match ts with KDoc _ :: KDot :: _ => true | _ => false end.
+
 (* _parse_tdl_definition, after the identifier *)
 Definition p_definition (fuel : nat) (ident : str) (ts : list ttok) : option (tevent * list ttok) :=
   match ts with
-  | KDefOp _ :: KAffix a :: r =>
-      let '(ops, r1) := take_pats r in
-      match ops, p_conj fuel r1 with
-      | Some ps, Some (c, r2) => match p_def_end r2 with
-                                 | Some (d, r3) => Some (VLex ident a ps c d, r3)
-                                 | None => None
-                                 end
-      | _, _ => None
-      end
   | KDefOp _ :: r =>
-      match p_conj fuel r with
-      | Some (c, r2) =>
-          if existsb is_type_term c then
-            match p_def_end r2 with
-            | Some (d, r3) => Some (VDef ident c d, r3)
-            | None => None
+      if hd_is k_affix r then
+        match r with
+        | KAffix a :: r0 =>
+            let '(ops, r1) := take_pats r0 in
+            match ops, p_conj fuel r1 with
+            | Some ps, Some (c, r2) => match p_def_end r2 with
+                                       | Some (d, r3) => Some (VLex ident a ps c d, r3)
+                                       | None => None
+                                       end
+            | _, _ => None
             end
-          else None
-      | None => None
-      end
-  | KAddOp :: KDoc d :: KDot :: r => Some (VAdd ident [] (Some d), r)
+        | _ => None
+        end
+      else
+        match p_conj fuel r with
+        | Some (c, r2) =>
+            if existsb is_type_term c then
+              match p_def_end r2 with
+              | Some (d, r3) => Some (VDef ident c d, r3)
+              | None => None
+              end
+            else None
+        | None => None
+        end
   | KAddOp :: r =>
-      match p_conj fuel r with
-      | Some (c, r2) => match p_def_end r2 with
-                        | Some (d, r3) => Some (VAdd ident c d, r3)
-                        | None => None
-                        end
-      | None => None
-      end
+      if is_doc_dot r then
+        match r with
+        | KDoc d :: KDot :: r' => Some (VAdd ident [] (Some d), r')
+        | _ => None
+        end
+      else
+        match p_conj fuel r with
+        | Some (c, r2) => match p_def_end r2 with
+                          | Some (d, r3) => Some (VAdd ident c d, r3)
+                          | None => None
+                          end
+        | None => None
+        end
   | _ => None
   end.
 
